@@ -150,7 +150,7 @@ pub fn c11(tier: Tier) -> PropSpec {
         exhaustive: false,
         parts: vec![Part::new(
             "histories",
-            tier.pick(15000, 150000),
+            tier.pick(80000, 600000),
             || {
                 (sem_case(1, 6), 0u8..4, proptest::collection::vec(calls::call_strategy(true), 1..12))
                     .prop_map(|(sem, backend, calls)| HistCase { sem, backend, calls })
